@@ -410,6 +410,20 @@ func Maps() map[string]interface{} {
 	}
 }
 
+// MapsB has maps under the same names as Maps, with other keys and other outcomes.
+func MapsB() map[string]interface{} {
+	ok := func(v int) map[string]interface{} { return map[string]interface{}{"V": v} }
+	d := Maps()
+	d["m2"] = map[string]interface{}{"q": ok(2)}
+	d["m3"] = map[string]interface{}{"x": ok(2), "y": ok(1)}
+	d["m4"] = map[string]interface{}{"a": ok(2), "b": ok(2), "c": ok(2), "d": ok(2), "e": ok(1)}
+	d["m5"] = map[string]interface{}{}
+	d["ok3"] = map[string]interface{}{"a": ok(2)}
+	d["ms"] = map[string]string{"z": "x"}
+	d["keys"] = []int{1, 2}
+	return d
+}
+
 type Doc struct {
 	Name string
 	V    interface{}
@@ -445,7 +459,7 @@ func World(name string) []Doc {
 	case "conts":
 		return Conts()
 	case "maps":
-		return []Doc{{"maps", Maps()}}
+		return []Doc{{"maps", Maps()}, {"maps-b", MapsB()}}
 	case "eq":
 		return []Doc{{"eq", EqDoc()}}
 	}
